@@ -242,7 +242,7 @@ def overlap_family(tails: List[List[dict]], thin: int = 1) -> List[dict]:
 DRAIN = [{"op": "gate_all", "place": "inline"}, {"op": "settle"}, {"op": "gate_all", "place": "inline"}, {"op": "settle"}]
 
 
-def close_overlap_family(thin: int = 1, ops=("close", "flush")) -> List[dict]:
+def close_overlap_family(thin: int = 1, ops=("close", "flush"), tail: Optional[List[dict]] = None) -> List[dict]:
     """gather_and_close() / flush() blocked on a task that sits in a slow callback while another task fails, returns or is cancelled:
 
         spawn 3 gated workers (one of them raises) ; tick 3 ; first task ends or is cancelled -> slow callback ; tick a ;
@@ -278,7 +278,190 @@ def close_overlap_family(thin: int = 1, ops=("close", "flush")) -> List[dict]:
                                         if c:
                                             steps.append({"op": "tick", "k": c})
                                         steps.append({"op": "gate", "k": k2, "place": "inline"})
+                                        steps.extend(copy.deepcopy(tail or []))
                                         steps.append({"op": "settle"})
                                         steps.extend(copy.deepcopy(DRAIN))
                                         cases.append({"pools": [{"cls": "TaskPool", "size": size}], "steps": steps})
+    return cases[::thin] if thin > 1 else cases
+
+
+def _ticks(steps: List[dict], k: int) -> None:
+    if k:
+        steps.append({"op": "tick", "k": k})
+
+
+def name_reuse_family(thin: int = 1) -> List[dict]:
+    """A group is cancelled while its spawner still has work (blocked on a full pool), and its name is taken again at once:
+
+        spawn A (explicit or generated name) ; tick t1 ; cancel_group(A) / cancel_all ; tick t2 ; spawn B under the same name ; tick t3 ;
+        gate k ; settle ; drain
+
+    t1 in 0..3, t2 in 0..1, t3 in 0..1, k in 0..2, pool size 1..2, A and B apply or map, explicit name or the generated one."""
+    cases: List[dict] = []
+    for size in (1, 2):
+        for ka, kb in (("apply", "apply"), ("map", "map"), ("apply", "map"), ("map", "apply")):
+            for named in (True, False):
+                if not named and ka != kb:
+                    continue        # generated names only coincide for the same method and function
+                for canc in ("group", "all"):
+                    for t1, t2, t3 in itertools.product(range(4), range(2), range(2)):
+                        for k in range(3):
+                            def req(kind: str, fname_end: Any) -> dict:
+                                sp: Dict[str, Any] = {"op": "spawn", "pool": 0, "kind": kind, "place": "inline",
+                                                      "worker": {"script": [["wait"]], "fname": "w"}}
+                                sp.update({"num": 3} if kind == "apply" else {"n": 3, "nc": 2})
+                                if named:
+                                    sp["gname"] = [0, 1]
+                                return sp
+                            steps = [req(ka, None)]
+                            _ticks(steps, t1)
+                            steps.append({"op": "cancel_group", "pool": 0, "ref": ["live", 0], "place": "inline"} if canc == "group" else
+                                         {"op": "cancel_all", "pool": 0, "place": "inline"})
+                            _ticks(steps, t2)
+                            steps.append(req(kb, None))
+                            _ticks(steps, t3)
+                            steps.append({"op": "gate", "k": k, "place": "inline"})
+                            steps.append({"op": "settle"})
+                            steps.extend(copy.deepcopy(DRAIN))
+                            cases.append({"pools": [{"cls": "TaskPool", "size": size}], "steps": steps})
+    return cases[::thin] if thin > 1 else cases
+
+
+def blocked_spawners_family(thin: int = 1, tail: Optional[List[dict]] = None, classes=("SimpleTaskPool", "TaskPool")) -> List[dict]:
+    """A full pool with two requests waiting for room; the first (or second) waiting one is cancelled; room is made; one more request:
+
+        spawn R0 (fills the pool) ; spawn R1 ; spawn R2 (both wait) ; tick t1 ; cancel_group(R1 or R2) ; tick t2 ; gate k (room) ;
+        tick t3 ; spawn R3 ; settle ; drain
+
+    for both pool classes, sizes 1..2, t1 in 0..2, t2, t3 in 0..1, k in 0..1."""
+    cases: List[dict] = []
+    for cls in classes:
+        for size in (1, 2):
+            for which in (1, 2):
+                for t1, t2, t3 in itertools.product(range(3), range(2), range(2)):
+                    for k in range(2):
+                        for num in (1, 2):
+                            def req(n: int) -> dict:
+                                if cls == "SimpleTaskPool":
+                                    return {"op": "spawn", "pool": 0, "kind": "start", "num": n, "place": "inline"}
+                                return {"op": "spawn", "pool": 0, "kind": "apply", "num": n, "place": "inline", "worker": {"script": [["wait"]], "fname": "w"}}
+                            steps = [req(size), req(num), req(num)]
+                            _ticks(steps, t1)
+                            steps.append({"op": "cancel_group", "pool": 0, "ref": ["live", which], "place": "inline"})
+                            _ticks(steps, t2)
+                            steps.append({"op": "gate", "k": k, "place": "inline"})
+                            _ticks(steps, t3)
+                            steps.append(req(1))
+                            steps.append({"op": "settle"})
+                            steps.extend(copy.deepcopy(tail or []))
+                            steps.extend(copy.deepcopy(DRAIN))
+                            pool: Dict[str, Any] = {"cls": cls, "size": size}
+                            if cls == "SimpleTaskPool":
+                                pool["worker"] = {"script": [["wait"]], "fname": "w"}
+                            cases.append({"pools": [pool], "steps": steps})
+    return cases[::thin] if thin > 1 else cases
+
+
+def worker_in_flush_family(thin: int = 1) -> List[dict]:
+    """A pool task is itself suspended in `await pool.flush()` (blocked on another task's slow cancel callback) when it is cancelled
+    from outside by id, by group or globally:
+
+        spawn X (slow cancel callback) ; spawn Y (script: wait, await flush(), wait) ; tick 3 ; cancel X ; tick t1 ; gate (Y goes on into
+        flush) ; tick t2 ; cancel Y / cancel_group(Y) / cancel_all ; tick t3 ; gate k (the callback or a worker) ; settle ; drain"""
+    cases: List[dict] = []
+    slow = {"async": True, "wait": True}
+    for size in (2, None):
+        for how in ("id", "group", "all"):
+            for ykind, yextra in (("apply", {"num": 2}), ("map", {"n": 3, "nc": 2})):
+                for t1, t2, t3 in itertools.product(range(3), range(3), range(2)):
+                    for k in range(3):
+                        x = {"op": "spawn", "pool": 0, "kind": "apply", "num": 1, "place": "inline", "ccb": dict(slow), "worker": {"script": [["wait"]], "fname": "x"}}
+                        y = {"op": "spawn", "pool": 0, "kind": ykind, "place": "inline", "ccb": {"async": False}, "ecb": {"async": False},
+                             "worker": {"script": [["wait"], ["aflush"], ["wait"]], "fname": "w"}, **yextra}
+                        steps = [x, y, {"op": "tick", "k": 3}, {"op": "cancel", "pool": 0, "refs": [["live", 0]], "place": "inline"}]
+                        _ticks(steps, t1)
+                        steps.append({"op": "gate", "k": 0, "place": "inline"})
+                        _ticks(steps, t2)
+                        steps.append({"op": "cancel", "pool": 0, "refs": [["live", 0]], "place": "inline"} if how == "id" else
+                                     {"op": "cancel_group", "pool": 0, "ref": ["live", 1], "place": "inline"} if how == "group" else
+                                     {"op": "cancel_all", "pool": 0, "place": "inline"})
+                        _ticks(steps, t3)
+                        steps.append({"op": "gate", "k": k, "place": "inline"})
+                        steps.append({"op": "settle"})
+                        steps.extend(copy.deepcopy(DRAIN))
+                        cases.append({"pools": [{"cls": "TaskPool", "size": size}], "steps": steps})
+    return cases[::thin] if thin > 1 else cases
+
+
+def two_pools_family(thin: int = 1) -> List[dict]:
+    """Two pools of one class in one loop, each with tasks; a task of the first is cancelled and sits in a slow callback while the
+    other pool is asked about the same id (never issued there, running there, flushed there):
+
+        spawn in pool 0 ; spawn in pool 1 ; tick 3 ; cancel pool 0 #a ; tick t ; <probe on pool 1> ; gate k ; settle ; drain"""
+    cases: List[dict] = []
+    slow = {"async": True, "wait": True}
+    probes = [[["any", 0]], [["never", 0]], [["any", 0], ["any", 1]], [["stale", 0]], [["never", 2], ["any", 0]]]
+    for cls in ("TaskPool", "SimpleTaskPool"):
+        for names in ((None, None), ("", ""), ("a", None)):
+            for n0, n1 in ((2, 1), (2, 3), (1, 0)):
+                for t in range(3):
+                    for pr in probes:
+                        for k in range(2):
+                            def req(p: int, n: int) -> dict:
+                                return {"op": "spawn", "pool": p, "kind": "apply", "num": n, "place": "inline", "ccb": dict(slow),
+                                        "worker": {"script": [["wait"]], "fname": "w"}}
+                            steps = [req(0, n0)] + ([req(1, n1)] if n1 else []) + [{"op": "tick", "k": 3},
+                                     {"op": "cancel", "pool": 0, "refs": [["live", 0]], "place": "inline"}]
+                            _ticks(steps, t)
+                            steps.append({"op": "cancel", "pool": 1, "refs": pr, "place": "inline"})
+                            steps.append({"op": "flush", "pool": 1, "re": True, "place": "eager"})
+                            steps.append({"op": "gate", "k": k, "place": "inline"})
+                            steps.append({"op": "settle"})
+                            steps.append({"op": "cancel", "pool": 1, "refs": pr, "place": "inline"})
+                            steps.extend(copy.deepcopy(DRAIN))
+                            pools = []
+                            for nm in names:
+                                ps: Dict[str, Any] = {"cls": cls, "size": None}
+                                if nm is not None:
+                                    ps["name"] = nm
+                                if cls == "SimpleTaskPool":
+                                    ps["worker"] = {"script": [["wait"]], "fname": "w"}
+                                    ps["ccb"] = dict(slow)
+                                pools.append(ps)
+                            cases.append({"pools": pools, "steps": steps})
+    return cases[::thin] if thin > 1 else cases
+
+
+def flush_raises_family(thin: int = 1) -> List[dict]:
+    """flush(return_exceptions=False) raises because a finished task had failed, while another task - cancelled - still sits in
+    its slow cancel callback; then the ids are probed with cancel():
+
+        spawn 3 (the first raises; slow cancel callback) ; tick 3 ; gate 0 (it fails) ; tick a ; cancel next ; tick b ; flush ;
+        tick c ; cancel(ids) ; gate k ; settle ; cancel(ids) ; drain"""
+    cases: List[dict] = []
+    slow = {"async": True, "wait": True}
+    probes = [[["any", 1]], [["any", 2], ["any", 1]], [["any", 0]], [["any", 1], ["any", 0]], [["incb", 0]]]
+    for size in (3, None):
+        for re_ in (False, True):
+            for place in ("eager", "task"):
+                for a, b, c in itertools.product(range(3), range(3), range(3)):
+                    for pr in probes:
+                        for k in range(2):
+                            sp = {"op": "spawn", "pool": 0, "kind": "apply", "num": 3, "place": "inline", "ccb": dict(slow),
+                                  "worker": {"script": [["wait"]], "fname": "w", "ends": [["raise"], ["ret"], ["ret"]]}}
+                            steps = [sp, {"op": "tick", "k": 3}, {"op": "gate", "k": 0, "place": "inline"}]
+                            _ticks(steps, a)
+                            steps.append({"op": "cancel", "pool": 0, "refs": [["live", 0]], "place": "inline"})
+                            _ticks(steps, b)
+                            fl = {"op": "flush", "pool": 0, "place": place}
+                            if re_:
+                                fl["re"] = True
+                            steps.append(fl)
+                            _ticks(steps, c)
+                            steps.append({"op": "cancel", "pool": 0, "refs": pr, "place": "inline"})
+                            steps.append({"op": "gate", "k": k, "place": "inline"})
+                            steps.append({"op": "settle"})
+                            steps.append({"op": "cancel", "pool": 0, "refs": pr, "place": "inline"})
+                            steps.extend(copy.deepcopy(DRAIN))
+                            cases.append({"pools": [{"cls": "TaskPool", "size": size}], "steps": steps})
     return cases[::thin] if thin > 1 else cases
